@@ -1,0 +1,40 @@
+//go:build verif
+
+package mhprimary
+
+// Machine-checked contracts for this package (comment-only; read by the gsv
+// verification-condition generator under /verif). Guarded by the build tag
+// `verif`, so no ordinary build ever sees this file.
+
+//@ func primaryPosToFileNum(pos, maxFileSize) (ok bool, fileNum uint32)  property C07
+//@   requires maxFileSize > 0
+//@   ensures @empty ok <==> pos != 0
+//@   ensures @file ok ==> fileNum == wrapu32(pfile(pos, maxFileSize))
+//@   ensures !ok ==> fileNum == 0
+
+//@ func localizePrimaryPos(pos, maxFileSize) (localPos types.Position, fileNum uint32)  property C07
+//@   requires maxFileSize > 0
+//@   ensures @empty pos == 0 ==> localPos == 0 && fileNum == 0
+//@   ensures @file fileNum == wrapu32(pfile(pos, maxFileSize))
+//@   ensures @local localPos == wrapu64(pos - fileNum*maxFileSize)
+
+//@ func absolutePrimaryPos(localPos, fileNum, maxFileSize) (r types.Position)  property C07
+//@   ensures @value r == wrapu64(ppos(fileNum, maxFileSize, localPos))
+
+//@ func (ir *IndexRemapper) RemapOffset(pos types.Position) (r types.Position, err error)  property C10
+//@   define S(k) = psum(arrof(ir.sizes), offof(ir.sizes), k)
+//@   requires ir.maxFileSize > 0
+//@   requires pos < (1 << 62)
+//@   requires forall j int :: 0 <= j && j < len(ir.sizes) ==> ir.sizes[j] >= 0
+//@   requires ir.firstFile + len(ir.sizes) < (1 << 32)
+//@   ghost var k int = 0
+//@   ghost at return: k = rangeindex
+//@   unfold at entry: S(0)
+//@   unfold at loop 0 latch: S($idx)
+//@   unfold at return: S(rangeindex + 1)
+//@   ensures @inrange err == nil ==> 0 <= k && k < len(ir.sizes) && S(k) <= pos && pos < S(k+1)
+//@   ensures @value err == nil ==> r == wrapu64(ppos(ir.firstFile + k, ir.maxFileSize, pos - S(k)))
+//@   ensures @outofrange err != nil ==> pos >= S(len(ir.sizes)) && r == 0
+//@   loop 0 invariant 0 <= $idx && $idx <= len(ir.sizes)
+//@   loop 0 invariant newPos == pos - S($idx) && newPos >= 0
+//@   loop 0 invariant fileNum == ir.firstFile + $idx
